@@ -132,14 +132,47 @@ func concurrentTrace(kind string, keys []string, rounds int, rng *rand.Rand, lab
 				locals[i].Hi = atomic.LoadInt64(&clk)
 			}
 		}()
-		go func() { // the gossip goroutine
+		// two gossip goroutines (payloads arrive over several links): the payloads are dealt between them, and one of
+		// them is delivered on both links
+		dup := rng.Intn(2) == 0
+		if dup {
+			src := merged[0]
+			cp := map[string]ad{}
+			items := map[string]rc.Value{}
+			for k, v := range src {
+				cp[k] = v
+				if v.A != 0 || v.D != 0 {
+					items[k] = rc.VerifValue(v.A, v.D, []byte("v"))
+				}
+			}
+			merged = append(merged, cp)
+			objs = append(objs, rc.VerifNewVolatile(items))
+			if last := len(objs) - 1; last%2 == 0 && last > 1 {
+				// the copy must travel on the other link than the original (index 0)
+				merged[1], merged[last] = merged[last], merged[1]
+				objs[1], objs[last] = objs[last], objs[1]
+			}
+		}
+		deltas := make([]map[string]ad, len(objs))
+		merger := func(from, spinN int) {
 			defer wg.Done()
 			<-start
-			spin(-skew)
-			for _, o := range objs {
-				m.Merge(o)
+			spin(spinN)
+			for i := from; i < len(objs); i += 2 {
+				m.Merge(objs[i])
+				d := map[string]ad{}
+				for _, k := range keys {
+					d[k] = ad{}
+				}
+				for k, v := range objs[i].VerifItems() {
+					d[k] = ad{v.AddTime(), v.DelTime()}
+				}
+				deltas[i] = d
 			}
-		}()
+		}
+		wg.Add(1)
+		go merger(0, -skew)
+		go merger(1, -skew/2)
 		stop := make(chan struct{})
 		go func() { // look-ups (the routine ban check, presence)
 			defer rwg.Done()
@@ -160,7 +193,7 @@ func concurrentTrace(kind string, keys []string, rounds int, rng *rand.Rand, lab
 		wg.Wait()
 		close(stop)
 		rwg.Wait()
-		tr.Events = append(tr.Events, core.Ev(map[string]any{"e": "conc", "r": "r1", "merged": merged, "locals": locals, "obs": observe()}))
+		tr.Events = append(tr.Events, core.Ev(map[string]any{"e": "conc", "r": "r1", "merged": merged, "deltas": deltas, "locals": locals, "obs": observe()}))
 	}
 	return tr
 }
